@@ -439,6 +439,28 @@ func main() {
 			oo.Printf("L%s\tkind=%s verdict=avoided reply=avoided sig=%s\n", id, kind, sig)
 			continue
 		}
+		if *replay == "" && i%40 == 17 {
+			// a pipelined group of (possibly malformed) SETs in one segment: judged by the direct oracle
+			// only (process alive, the node still answers; reply count noted)
+			step("pipeline:" + id)
+			n := 2 + r.Pick(3)
+			var group [][][]byte
+			for k := 0; k < n; k++ {
+				c := bb([]string{"set", fmt.Sprintf("vns:t:pl%d", r.Pick(4)), fmt.Sprint(r.Pick(100))})
+				if r.Pick(3) == 0 {
+					c, _ = mutateOnce(r, c)
+				}
+				group = append(group, c)
+			}
+			nrep, nerr, closed, tmo := ln.rc.pipeline(group, 2*time.Second)
+			if closed || tmo {
+				ln.rc.c.Close()
+				if rc2, e := dial(ln.port); e == nil {
+					ln.rc = rc2
+				}
+			}
+			oo.Printf("G%s\tpipeline=%d replies=%d errors=%d closed=%v timeout=%v\n", id, n, nrep, nerr, closed, tmo)
+		}
 		step("live:" + id)
 		facts := ln.facts(v.args)
 		co.Printf("L%s\tL\t%s\t%s\t%s\n", id, argsH, facts, floatTable(v.args))
